@@ -105,11 +105,14 @@ static std::vector<Shown> library_view(econf_file *kf) {
   return v;
 }
 
+static std::vector<std::string> g_printed_sections;  // section lines of the block parsed last
+
 // parse one printed configuration block starting at line i (after the "-----" separator); stops at the next separator
 static std::vector<Shown> parse_block(const std::vector<std::string> &lines, size_t &i, std::string &path) {
   std::vector<Shown> v;
   std::string cur;
   path.clear();
+  g_printed_sections.clear();
   bool in_group_block = false;
   for (; i < lines.size(); i++) {
     const std::string &l = lines[i];
@@ -142,8 +145,25 @@ static std::vector<Shown> parse_block(const std::vector<std::string> &lines, siz
     }
     cur = l;
     in_group_block = true;
+    g_printed_sections.push_back(l);
   }
   return v;
+}
+
+static std::vector<std::string> library_sections(econf_file *kf) {
+  std::vector<std::string> r;
+  size_t n = 0;
+  char **g = nullptr;
+  if (econf_getGroups(kf, &n, &g) == ECONF_SUCCESS) {
+    for (size_t i = 0; i < n; i++) r.push_back(g[i]);
+    econf_freeArray(g);
+  }
+  return r;
+}
+static std::string join_names(const std::vector<std::string> &v) {
+  std::string r;
+  for (auto &x : v) r += "[" + x + "] ";
+  return r;
 }
 
 static void no_sanitizer_report(const ToolRun &t, const char *what) {
@@ -190,9 +210,12 @@ static void run(Src &s) {
         cur = sec;
       }
       m.append(sec, e.key, e.value);
-      std::string v = e.value;
-      size_t nl = v.find('\n');
-      text += e.key + sep + (nl == std::string::npos ? v : v.substr(0, nl) + "\n" + v.substr(nl + 1)) + "\n";
+      text += e.key + sep + e.value + "\n";  // (continuation lines carry their indentation in the value)
+    }
+    if (s.chance(25)) {
+      // a section without keys: the library lists it (when nothing is merged), so the tool has to
+      m.declare("Empty");
+      text += "[Empty]\n";
     }
     f.content = m;
     f.text = text;
@@ -282,10 +305,12 @@ static void run(Src &s) {
   econf_err lib_rc = econf_readDirs(&kf, usr.c_str(), etc.c_str(), pa.name.c_str(), ".conf", D.c_str(), C.c_str());
 #pragma GCC diagnostic pop
   std::vector<Shown> want;
+  std::vector<std::string> want_sections;
   std::string err_file;
   uint64_t err_line = 0;
   if (lib_rc == ECONF_SUCCESS) {
     want = library_view(kf);
+    want_sections = library_sections(kf);
   } else {
     char *fn = nullptr;
     econf_errLocation(&fn, &err_line);
@@ -314,6 +339,17 @@ static void run(Src &s) {
       std::string path;
       std::vector<Shown> got = parse_block(tr.lines, i, path);
       VF_CHECK(got == want, "show-differs", "show prints\n" << show_list(got) << "but the library returns\n" << show_list(want) << "raw output:\n" << tr.raw.substr(0, 1500));
+      VF_CHECK(g_printed_sections == want_sections, "show-differs", "show prints the sections " << join_names(g_printed_sections) << "but the library lists "
+                                                                                                << join_names(want_sections) << "\nraw output:\n" << tr.raw.substr(0, 1500));
+      if (want_sections.size() > 0 && want.size() > 0) {
+        bool keyless = false;
+        for (auto &sec : want_sections) {
+          bool has = false;
+          for (auto &w : want) has = has || w.section == sec;
+          keyless = keyless || !has;
+        }
+        if (keyless) g_case.tag("keyless_section_shown");
+      }
     }
   } else if (cmd == 1) {
     // ---- syntax
@@ -341,9 +377,11 @@ static void run(Src &s) {
     size_t hn = 0;
     econf_err h_rc = econf_readDirsHistory(&hist, &hn, usr.c_str(), etc.c_str(), pa.name.c_str(), ".conf", D.c_str(), C.c_str());
     std::vector<std::pair<std::string, std::vector<Shown>>> hwant;
+    std::vector<std::vector<std::string>> hsecs, gsecs;
     if (h_rc == ECONF_SUCCESS) {
       for (size_t i = 0; i < hn; i++) {
         char *p = econf_getPath(hist[i]);
+        hsecs.push_back(library_sections(hist[i]));
         hwant.push_back({p ? p : "", library_view(hist[i])});
         free(p);
         econf_freeFile(hist[i]);
@@ -363,8 +401,9 @@ static void run(Src &s) {
         std::string path;
         std::vector<Shown> b = parse_block(tr.lines, i, path);
         got.push_back({path, b});
+        gsecs.push_back(g_printed_sections);
       }
-      bool same = got.size() == hwant.size();
+      bool same = got.size() == hwant.size() && gsecs == hsecs;
       for (size_t k = 0; same && k < got.size(); k++) same = collapse_slashes(got[k].first) == collapse_slashes(hwant[k].first) && got[k].second == hwant[k].second;
       if (!same) {
         std::string m = "cat lists\n";
